@@ -1,4 +1,7 @@
 """C03 operator call protocol: translator + correspondence + probes."""
+import json
+import os
+
 import numpy as np
 
 from . import common as C
@@ -1365,7 +1368,7 @@ class _Recipes(object):
         add('NumericalDerivative', 'A', lambda: S.NumericalDerivative(odl.ufunc_ops.square(sp), v(sp)))
         # every method x step lengths (default, dyadic, non-dyadic small / large)
         for meth in ('forward', 'backward', 'central'):
-            for step in (None, 1e-4, 1e-6, 0.1, 0.5):
+            for step in ((None, 1e-4) if self.big else (None, 1e-4, 1e-6, 0.1, 0.5)):
                 for fname, fmk in (('l2sq', f), ('l1', g)):
                     if fname == 'l1' and step not in (1e-4, 0.1):
                         continue
@@ -1446,6 +1449,22 @@ class _Recipes(object):
                 add('%s.proximal(%s)' % (name, sig), (lambda mk=mk, sig=sig: mk().proximal(sig)), kind)
                 add('%s.convex_conj.proximal(%s)' % (name, sig), (lambda mk=mk, sig=sig: mk().convex_conj.proximal(sig)),
                     'prob' if name in posfun else 'any')
+            # non-dyadic step sizes (labels starting with '~' run in the thorough tier only)
+            for sig in (0.3, 0.02):
+                add('~%s.proximal(%s)' % (name, sig), (lambda mk=mk, sig=sig: mk().proximal(sig)), kind)
+                add('~%s.convex_conj.proximal(%s)' % (name, sig), (lambda mk=mk, sig=sig: mk().convex_conj.proximal(sig)),
+                    'prob' if name in posfun else 'any')
+
+            def deriv(mk=mk, kind=kind):
+                fn = mk()
+                return fn.derivative(_rand(fn.domain, self.rng, kind))
+            add('%s.derivative' % name, deriv, kind)
+            # finite-difference gradient of every functional, non-dyadic step, all methods
+            for meth in ('forward', 'backward', 'central'):
+                if name.startswith('Indicator'):
+                    break               # values 0 / inf: a difference quotient is inf - inf
+                add('%s%s.numgrad-%s' % ('' if (meth == 'forward' and not self.big) else '~', name, meth),
+                    (lambda mk=mk, meth=meth: S.NumericalGradient(mk(), method=meth, step=1e-4)), kind)
             add('%s.convex_conj' % name, (lambda mk=mk: mk().convex_conj), 'prob' if name in posfun else 'any')
             add('%s.convex_conj.gradient' % name, (lambda mk=mk: mk().convex_conj.gradient), 'prob' if name in posfun else 'any')
         # proximal factories called directly, all options
@@ -1805,8 +1824,10 @@ def _probe_inputs(op, kind, rng, x, P):
 def _in_kind(x, kind):
     """The entries of x satisfy the input restriction `kind` of a recipe."""
     a = _flat(x)
-    if kind == 'any' or not _is_float(a.dtype):
-        return kind == 'any' or bool(np.all(np.isfinite(a)))
+    if not _is_float(a.dtype):
+        return True
+    if kind == 'any':
+        return bool(np.all(np.isfinite(a)))
     if not np.all(np.isfinite(a)):
         return False
     a = np.abs(a) if np.iscomplexobj(a) else a
@@ -1844,12 +1865,165 @@ def _probe_history(op, rebuild, kind, rng, P):
                   'x = op(x0); then %s: x (a previous result of this operator object) bit-for-bit unchanged by the '
                   'call' % ('op(x)' if mode == 'oop' else 'op(x, out=y)'),
                   {'x_before': _flat(keep)[:6].tolist(), 'x_after': _flat(x1)[:6].tolist()})
-                P(_close(_flat(x2), want, equal_nan=True), 'history-value-%s' % mode,
-                  'x = op(x0); then %s has the values a fresh operator object gives on a copy of x'
-                  % ('op(x)' if mode == 'oop' else 'op(x, out=y)'),
-                  {'fresh': want[:6].tolist(), 'got': _flat(x2)[:6].tolist()})
+                if np.all(np.isfinite(want)):
+                    P(_close(_flat(x2), want, equal_nan=True), 'history-value-%s' % mode,
+                      'x = op(x0); then %s has the values a fresh operator object gives on a copy of x'
+                      % ('op(x)' if mode == 'oop' else 'op(x, out=y)'),
+                      {'fresh': want[:6].tolist(), 'got': _flat(x2)[:6].tolist()})
         except Exception as e:      # noqa
             P(False, 'history-raises', 'x = op(x0); op(x) raised %s: %s' % (type(e).__name__, str(e)[:80]))
+
+
+def _expr_tree(R, rng, depth):
+    """A random expression over the classes of operator.py on R.sp -> R.sp.  Every node that takes scratch memory
+    (tmp, tmp_ran, tmp_dom) gets its OWN user-supplied temporaries with probability 1/2; leaves include the
+    view-returning operators (RealPart / ImagPart of a complex embedding, flattening and its inverse)."""
+    odl, O, sp = R.odl, R.odl.operator.operator, R.sp
+    if depth <= 0 or rng.random() < 0.2:
+        pick = rng.randrange(8)
+        if pick == 0:
+            return odl.ScalingOperator(sp, rng.choice((3.0, -0.5, 0.0, 1.0)))
+        if pick == 1:
+            return odl.MultiplyOperator(R.v(sp))
+        if pick == 2:
+            return odl.RealPart(sp)
+        if pick == 3:
+            return odl.IdentityOperator(sp)
+        if pick == 4:
+            return odl.PowerOperator(sp, 2)
+        if pick == 5:
+            emb = odl.ComplexEmbedding(sp, scalar=rng.choice((1 + 2j, 2j, 1.0)))
+            part = rng.choice((odl.RealPart, odl.ImagPart))(R.csp)
+            return O.OperatorComp(part, emb, tmp=(R.csp.element() if rng.random() < 0.5 else None))
+        if pick == 6 and len(R.shape) >= 2:
+            fl = odl.FlatteningOperator(sp)
+            return O.OperatorComp(fl.inverse, fl, tmp=(fl.range.element() if rng.random() < 0.5 else None))
+        return odl.ConstantOperator(R.v(sp))
+    t = lambda: (sp.element() if rng.random() < 0.5 else None)
+    sub = lambda: _expr_tree(R, rng, depth - 1)
+    pick = rng.randrange(8)
+    if pick == 0:
+        return O.OperatorSum(sub(), sub(), tmp_ran=t(), tmp_dom=t())
+    if pick == 1:
+        return O.OperatorComp(sub(), sub(), tmp=t())
+    if pick == 2:
+        return O.OperatorRightScalarMult(sub(), rng.choice((2.0, 0.0, -1.5)), tmp=t())
+    if pick == 3:
+        return O.OperatorLeftScalarMult(sub(), rng.choice((2.0, 0.0, -1.5)))
+    if pick == 4:
+        return O.OperatorVectorSum(sub(), R.v(sp))
+    if pick == 5:
+        return O.OperatorLeftVectorMult(sub(), R.v(sp))
+    if pick == 6:
+        return O.OperatorRightVectorMult(sub(), R.v(sp))
+    return O.OperatorPointwiseProduct(sub(), sub())
+
+
+def _tree_builder(cfg, seed, i):
+    """A repeatable builder of the i-th random expression of (cfg, seed)."""
+    import random
+
+    def build():
+        rng = random.Random(seed * 7919 + i * 104729 + 17)
+        return _expr_tree(_Recipes(rng, cfg), rng, 1 + i % 3)
+    return build
+
+
+def _long_history(op, rebuild, rng, P, steps=6):
+    """A longer call history on ONE operator object.  Every step calls it out of place or in place on a new
+    random input, on the previous result, or on an earlier result.  Obligations per step: the input is
+    bit-for-bit unchanged by the call, and the values are those a fresh operator object gives on a copy."""
+    import warnings
+    dom, ran = op.domain, op.range
+    if dom != ran:
+        return
+    with warnings.catch_warnings(), np.errstate(all='ignore'):
+        warnings.simplefilter('ignore')
+        try:
+            results = []
+            trace = []
+            for step in range(steps):
+                src = rng.choice(('new', 'prev', 'earlier')) if results else 'new'
+                x = _rand(dom, rng) if src == 'new' else (results[-1] if src == 'prev' else rng.choice(results))
+                mode = rng.choice(('oop', 'ip'))
+                trace.append('%s(%s)' % (mode, src))
+                keep = x.copy()
+                xb = _flat(x).tobytes()
+                want = np.array(_flat(rebuild()(keep)), copy=True)
+                if mode == 'oop':
+                    r = op(x)
+                else:
+                    r = _poison(ran)
+                    op(x, out=r)
+                same = _flat(x).tobytes() == xb
+                hist = ' -> '.join(trace)
+                P(same, 'history-x-changed-%s' % mode, 'call history %s: the input of the last call (%s) is '
+                  'bit-for-bit unchanged by that call' % (hist, {'new': 'a new element', 'prev': 'the previous '
+                                                                   'result', 'earlier': 'an earlier result'}[src]),
+                  {'x_before': _flat(keep)[:6].tolist(), 'x_after': _flat(x)[:6].tolist()})
+                if not np.all(np.isfinite(want)):
+                    return              # overflow: the history has left the finite numbers, no further claim
+                P(_close(_flat(r), want, equal_nan=True), 'history-value-%s' % mode,
+                  'call history %s: the last call gives the values of a fresh operator object on a copy of its input'
+                  % hist, {'fresh': want[:6].tolist(), 'got': _flat(r)[:6].tolist()})
+                if not same:
+                    return
+                results.append(r)
+        except Exception as e:      # noqa
+            P(False, 'history-raises', 'call history %s raised %s: %s' % (' -> '.join(trace), type(e).__name__,
+                                                                         str(e)[:80]))
+
+
+def tree_probes(cfg, seed, i):
+    """All clauses of probe_operator plus a long call history for the i-th random expression of (cfg, seed)."""
+    import random
+    build = _tree_builder(cfg, seed, i)
+    setup = ('tree', cfg, seed, i)
+    op = build()
+    res = probe_operator(op, 'any', random.Random(seed + i), 'ExprTree', 'tree %d' % i, cfg, setup, rebuild=build)
+
+    def P(ok, clause, what, detail=None):
+        res.append(C.Probe(bool(ok), 'ExprTree:%s:%s' % (clause, cfg), 'ExprTree[tree %d] %s: %s' % (i, cfg, what),
+                           _snippet(setup, clause), detail))
+    _long_history(build(), build, random.Random(seed + i + 1), P)
+    return res
+
+
+def search(rng, broken):
+    """Directed search for a concrete input when an obligation broke but no probe failed: call histories (results
+    fed back as inputs, out of place and in place) on operator objects built with every scratch option -- the
+    scratch-option recipes with more seeds and a larger number of random expressions with user temporaries."""
+    import random
+    known = {}
+    try:
+        known = json.load(open(os.path.join(C.VERIF, 'findings', 'C03.json')))
+    except Exception:      # noqa
+        pass
+    for rnd in range(4):
+        seed = rng.randrange(10 ** 6)
+        for cfg, _shape in CFGS:
+            for i in range(40):
+                try:
+                    ps = tree_probes(cfg, seed, i)
+                except Exception:      # noqa
+                    continue
+                for p in ps:
+                    if not p.ok and p.key not in known:
+                        return p
+            recs = _all_recipes(random.Random(seed), cfg)
+            for idx, (cls, label, build, kind) in enumerate(recs):
+                if 'tmp' not in label:
+                    continue
+                try:
+                    op = build()
+                except Exception:      # noqa
+                    continue
+                name = cls or type(op).__name__
+                for p in probe_operator(op, kind, random.Random(seed + 1), name, label, cfg, (cfg, idx, seed),
+                                        rebuild=build):
+                    if not p.ok and p.key not in known:
+                        return p
+    return None
 
 
 def big_layout_probes(rng):
@@ -1992,6 +2166,10 @@ ABSTRACT_BASES = ('Functional', 'DiscreteFourierTransformBase', 'FourierTransfor
 def replay_probe(setup, clause):
     """Re-run one recipe (identified by (big, index, seed)) and report the named clause."""
     import random
+    if setup[0] == 'tree':
+        ps = tree_probes(*setup[1:])
+        bad = [p for p in ps if not p.ok and p.key.split(':')[1] == clause]
+        return (not bad), [p.what for p in bad]
     cfg, idx, seed = setup
     rng = random.Random(seed)
     recs = _all_recipes(rng, cfg)
@@ -2023,11 +2201,13 @@ def probes(rng, tier):
     out = []
     seen_classes = set()
     failed_build = []
-    seeds = [rng.randrange(10 ** 6)] if tier == 'quick' else [rng.randrange(10 ** 6) for _ in range(3)]
+    seeds = [rng.randrange(10 ** 6)] if tier == 'quick' else [rng.randrange(10 ** 6) for _ in range(2)]
     for seed in seeds:
         for cfg, _shape in CFGS:
             recs = _all_recipes(random.Random(seed), cfg)
             for idx, (cls, label, build, kind) in enumerate(recs):
+                if tier == 'quick' and label.startswith('~'):
+                    continue
                 try:
                     op = build()
                 except Exception as e:      # noqa
@@ -2038,6 +2218,14 @@ def probes(rng, tier):
                 # classes reached below the top object (operands) count as covered, too
                 out += probe_operator(op, kind, random.Random(seed + 1), name, label, cfg, (cfg, idx, seed),
                                       rebuild=build)
+        for cfg, _shape in CFGS:
+            for i in range(10 if tier == 'quick' else 25):
+                try:
+                    out += tree_probes(cfg, seed, i)
+                    seen_classes.add('ExprTree')
+                except Exception as e:      # noqa
+                    failed_build.append('ExprTree[%s %d]: %s' % (cfg, i, type(e).__name__))
+    seen_classes.discard('ExprTree')
     out += big_layout_probes(random.Random(seeds[0]))
     allc = enumerate_classes()
     names = sorted(set(c.__name__ for c in allc))
